@@ -165,6 +165,10 @@ def rekeyed(case, rekey):
 def facts(ix):
     """(enter t, exit how, exit t) of every non-forever atomic job without forever ancestor"""
     out = {}
+    # relative to the beginning of the judged run (a second run starts whenever the first
+    # one was over, which may depend on the orders)
+    begin = ix.enter(ix.spec['id'])
+    t0 = begin['t'] if begin else 0
 
     def rec(sp, tainted):
         for m in sp['members']:
@@ -173,8 +177,8 @@ def facts(ix):
                 rec(m, t)
             elif not t:
                 en, ex = ix.enter(m['id']), ix.exit(m['id'])
-                out[m['id']] = (en['t'] if en else None, ex['how'] if ex else None,
-                                ex['t'] if ex else None)
+                out[m['id']] = (en['t'] - t0 if en else None, ex['how'] if ex else None,
+                                ex['t'] - t0 if ex else None)
     rec(ix.spec, False)
     return out
 
